@@ -186,7 +186,7 @@ def w11(led, rid, ctx):
                           "%s takes the absolute value of a DIMACS code outside the code→literal translation: what it "
                           "computes is about variables, not literals (a clause that repeats a literal looks like a "
                           "tautology, `x` looks like a duplicate of `¬x`)" % root.rsplit("::", 1)[-1])
-    led.floor(rid, "absolute values of DIMACS codes", n, 2)
+    led.floor(rid, "absolute values of DIMACS codes", n, 1)
 
 
 def w12(led, rid, ctx):
